@@ -33,6 +33,8 @@ package cli
 //@ nilsafe
 //@ may_panic true
 //@ loop 0 step [discard-overflow-is-on-unless-configured] imp(ok, has(poolMap, "discard_overflow"))
+//@ loop 0 invariant [every-pool-so-far-has-the-setting] forall(k, 0, rangeidx, imp(typeis(pools[k], map[string]any), has(pools[k].(map[string]any), "discard_overflow")))
+//@ at call v.Set assert [every-pool-has-the-setting] forall(k, 0, len(pools), imp(typeis(pools[k], map[string]any), has(pools[k].(map[string]any), "discard_overflow")))
 //@ at call config.DecodeAndValidate assert [decoded-into-the-defaults] arg(a1) == box(result_of(DefaultConfig, 0))
 //@ ensures [decode-errors-end-the-process] result_of(config.DecodeAndValidate, 0) == nil
 
